@@ -23,6 +23,8 @@ pub fn check_case(case: &Case) -> CaseResult {
     let mut block;
     let mut arena = ByteArena::new();
     stream_in::prepare_arena_for(&mut arena, &case.delivery);
+    let mut other_arena = ByteArena::new();
+    stream_in::prepare_arena_for(&mut other_arena, &case.delivery);
     let mut reader = CyclicReader::new(&stream, &case.delivery);
     let mut chunker = StreamChunker::default();
 
@@ -38,8 +40,9 @@ pub fn check_case(case: &Case) -> CaseResult {
         if pumps > budget {
             return Err(Fail::new("chunker:no-progress", format!("more than {budget} pump calls for a {}-byte stream (block size {block})", stream.len())));
         }
+        let which = if case.delivery.two_arenas && pumps % 2 == 0 { &mut other_arena } else { &mut arena };
         let chunk = chunker
-            .pump(&mut arena, &mut reader, block)
+            .pump(which, &mut reader, block)
             .map_err(|e| Fail::new("chunker:io-error", format!("pump failed although the reader only interrupts: {e}")))?;
         match chunk {
             Chunk::Sentinel(o) => {
@@ -106,6 +109,7 @@ pub fn check_case(case: &Case) -> CaseResult {
         .label_if(reader.interrupts > 0, "eintr")
         .label_if(case.delivery.any_block_below_2(), "block<2")
         .label_if(!case.delivery.blocks.is_empty(), "block_size_changes_between_calls")
+        .label_if(case.delivery.two_arenas, "two_arenas_alternating")
         .label_if(block_at(0) >= 4096, "block>=4096")
         .label_if(data_chunks >= 4, ">=4_data_chunks")
         .label_if(stream.len() > 64_260, "stream>64260")
@@ -155,7 +159,7 @@ fn replay(_ctx: &Ctx, _group: &str, case: &Value) -> CaseResult {
 pub fn def() -> PropDef {
     PropDef {
         id: "C08",
-        rule: "A case is (stream description, delivery): the stream is a sequence of tokens - canonical encodings of small payloads, torn (truncated) and corrupted encodings, garbage, lone FE - each followed by 0..3 FE FD delimiters, optionally truncated as a whole; the delivery is a scripted reader (short reads down to one byte, Interrupted errors, optionally repeating), an io_block_size from {0,1,2,3,4,5,7,8,64,4096,70000,default} and an arena preparation (fresh, pre-sized, 0..4 bytes left in the current chunk; max-size-chunk: the current chunk is a 1 MiB one with 0..37 bytes left). large-records: 1..4 tokens built on payloads of up to 140000 bytes (one in nine of 0.5..1.3 MB: more than a default I/O block and than the arena's largest chunk), block sizes >= 64. In one delivery out of four every pump call gets its own io_block_size (a cyclic schedule of 2..5 sizes from the same set): the block size is an argument of each call, not of the stream. pump is called until Eof and twice more. Oracle with running position q: Sentinel(o) has o = q+2 and the stream holds FE FD at q; Data(o, s) is non-empty, equals stream[q..o], contains no FE FD, and a Data ending in FE is never followed by a Data starting with FD; Eof only at the real end and sticky; Sentinel count = number of FE FD occurrences. Non-trivial: the stream has a delimiter and some read delivered exactly the FE of an FE FD pair last. Distinct: hash of the serialised case.",
+        rule: "A case is (stream description, delivery): the stream is a sequence of tokens - canonical encodings of small payloads, torn (truncated) and corrupted encodings, garbage, lone FE - each followed by 0..3 FE FD delimiters, optionally truncated as a whole; the delivery is a scripted reader (short reads down to one byte, Interrupted errors, optionally repeating), an io_block_size from {0,1,2,3,4,5,7,8,64,4096,70000,default} and an arena preparation (fresh, pre-sized, 0..4 bytes left in the current chunk; max-size-chunk: the current chunk is a 1 MiB one with 0..37 bytes left). large-records: 1..4 tokens built on payloads of up to 140000 bytes (one in nine of 0.5..1.3 MB: more than a default I/O block and than the arena's largest chunk), block sizes >= 64. In one delivery out of four every pump call gets its own io_block_size (a cyclic schedule of 2..5 sizes from the same set): the block size is an argument of each call, not of the stream. In one delivery out of six successive pump calls alternate between two arenas. pump is called until Eof and twice more. Oracle with running position q: Sentinel(o) has o = q+2 and the stream holds FE FD at q; Data(o, s) is non-empty, equals stream[q..o], contains no FE FD, and a Data ending in FE is never followed by a Data starting with FD; Eof only at the real end and sticky; Sentinel count = number of FE FD occurrences. Non-trivial: the stream has a delimiter and some read delivered exactly the FE of an FE FD pair last. Distinct: hash of the serialised case.",
         assumptions: &["readers only deliver short reads and Interrupted errors (hard errors and premature end of file are C17's subject)"],
         exhaustive_note: None,
         shards: |t: Tier| t.pick(8, 16),
